@@ -2538,6 +2538,59 @@ func lemmaForwardSession(raw *rawEnvelope) (e *Session, e3 *Session, accepted bo
 //@   modifies nothing
 
 // ---------------------------------------------------------------------------
+// In-process transport: the implementation behind the Transport model for C04
+// (one hand-over per Send, nothing consumed is dropped by Receive) and C14
+// (Close marks both ends closed, so the peer is never left on an open pipe)
+// ---------------------------------------------------------------------------
+
+//@ spec fn inprocPair(t *inProcessTransport) bool = t != nil && t.remote != nil && t.remote != t && t.remote.remote == t && t.envChan != nil && t.remote.envChan != nil && t.done != nil && t.remote.done != nil
+//@ struct inProcessTransport
+//@   chaninv envChan : v != nil && !payloadnil(v) && isKind(v)
+//@ census [C04] closers chan envelope : none  ## queues of envelopes are never closed, so a receive from one always yields a value that was sent
+
+//@ func (*inProcessTransport).Connected
+//@   props C04 C14
+//@   requires t != nil
+//@   modifies nothing
+//@   ensures result == !t.closed
+
+//@ func (*inProcessTransport).Send
+//@   props C04
+//@   requires inprocPair(t) && e != nil && !payloadnil(e) && isKind(e)
+//@   modifies nothing
+//@   checks [C04] @handedoveronce result == nil ==> nsent(inProcessTransport.envChan) == 1 && lastsent(inProcessTransport.envChan) == e && sentch(inProcessTransport.envChan) == t.remote.envChan  ## into the peer's queue, not its own
+//@   checks [C04] @refusedmeansnothing result != nil ==> nsent(inProcessTransport.envChan) == 0
+//@   ensures [C04] @closedrefuses t.closed ==> result != nil
+
+//@ func (*inProcessTransport).Receive
+//@   props C04 C14
+//@   requires inprocPair(t) && ctx != nil && neverclosed(t.envChan)
+//@   modifies nothing
+//@   checks [C04] @deliverswhatitconsumed result1 == nil ==> nrecv(inProcessTransport.envChan) == 1 && result0 == lastrecv(inProcessTransport.envChan) && recvch(inProcessTransport.envChan) == t.envChan
+//@   checks [C04] @neverdrops result1 != nil ==> nrecv(inProcessTransport.envChan) == 0
+//@   ensures [C04] @kinds result1 == nil ==> result0 != nil && !payloadnil(result0) && isKind(result0)
+//@   ensures [C14] @closedrefuses t.closed ==> result1 != nil
+
+//@ func (*inProcessTransport).Close
+//@   props C14
+//@   requires inprocPair(t)
+//@   modifies t.closed, t.remote.closed
+//@   ensures [C14] @bothends t.closed && t.remote.closed
+//@   ensures result == nil
+
+//@ func newInProcessTransport
+//@   props C04 C14
+//@   modifies nothing
+//@   panics only-if bufferSize < 0
+//@   ensures result != nil && fresh(result) && result.envChan != nil && result.done != nil && !result.closed && result.remote == nil && result.addr == addr
+
+//@ func newInProcessTransportPair
+//@   props C04 C14
+//@   modifies nothing
+//@   panics only-if bufferSize < 0
+//@   ensures [C04,C14] @paired inprocPair(client) && inprocPair(server) && client.remote == server && !client.closed && !server.closed
+
+// ---------------------------------------------------------------------------
 // C17 - handlers see their own session; listen (dispatch loop): C04 C06 C17 C20
 // ---------------------------------------------------------------------------
 
